@@ -31,12 +31,17 @@ TopLevel == Steps1      \* a lone step with an omission is a pipeline of one ste
 
 Progs2 == {<<s>> : s \in TopLevel} \cup [1..2 -> Steps1]
 \* thorough: three steps; the middle one carries every modifier combination
-Progs3 == [1..3 -> Steps1]
+\* thorough: three steps over a mixed base of elementary steps and macros (one-way, failing, nested,
+\* directional bodies), all modifier combinations incl. both omissions at once on the middle step
+Base3 == {A, B, Z, W, M("m:i"), M("m:d"), M("m:n"), M("m:o")}
+Steps3 == {Mod(b, m[1], m[2], m[3]) : b \in Base3, m \in Mods}
+Progs3 == [1..3 -> Steps3]
 \* quick: every three-step pipeline over three elementary steps and one macro, all modifier combinations
 Small == {Mod(b, m[1], m[2], m[3]) : b \in {A, B, C, M("m:i")}, m \in Mods}
 Progs3s == [1..3 -> Small]
 \* simulation: long pipelines
-ProgsLong == UNION {[1..n -> Small] : n \in 4..5}
+LongSteps == {A, Mod(B, TRUE, FALSE, FALSE), Mod(C, FALSE, TRUE, FALSE), M("m:i"), Mod(M("m:n"), TRUE, FALSE, FALSE), Mod(Z, FALSE, FALSE, TRUE)}
+ProgsLong == [1..5 -> LongSteps]
 
 \* tuple 1 passes t_failodd, tuple 2 (odd first element) fails it
 D2 == << <<2 * Unit, 12 * Unit, 13 * Unit, 14 * Unit>>, <<21 * Unit, 22 * Unit, 23 * Unit, 24 * Unit>> >>
